@@ -39,6 +39,10 @@ Arguments pt_bang {V}. Arguments pt_postconst {V}. Arguments pt_sup {V}. Argumen
 Arguments pt_open {V}. Arguments pt_neg {V}. Arguments pt_pos {V}. Arguments pt_ans {V}.
 Arguments pt_neg_level {V}. Arguments pt_impl_level {V}. Arguments pt_zero {V}.
 
+(** token kinds that parse_number handles in its catch-all tail (constants, brackets, errors) *)
+Definition is_plain (k : kind) : bool :=
+  match k with KAns | KFunc _ | KSubtract | KAdd => false | _ => true end.
+
 Section Engine.
   Context {V : Type}.
   Variable T : ptab V.
